@@ -19,6 +19,8 @@ import os as _os
 _AVXN = sorted(int(f.split("_")[-1].split(".")[0]) for f in _os.listdir(_os.path.join(_os.path.dirname(_os.path.abspath(__file__)), "..", "spec", "execplan_avx")))
 MC_EXECPLANAVX = [{"module": "MC_ExecPlanAvx.tla", "cfg": "execplan_avx/MC_ExecPlanAvx_%d.cfg" % n, "xss": "1g", "timeout": 2400,
                    "thorough_only": n not in (22, 39, 74)} for n in _AVXN if n >= 10 and n <= 128]
+MC_THRENV = {"module": "ThreadEnv.tla", "cfg": "MC_ThreadEnv.cfg", "timeout": 600}
+MC_PCACHE = {"module": "PlannerCache.tla", "cfg": "MC_PlannerCache.cfg", "timeout": 900, "xss": "256m"}
 MC_MULREM = {"module": "MulRem.tla", "cfg": "MulRem.cfg", "cfg_quick": "MulRem_quick.cfg", "timeout": 900, "xss": "256m"}
 MC_THR = {"module": "Threads.tla", "cfg": "MC_Threads3.cfg", "timeout": 600}
 
@@ -66,7 +68,7 @@ PROPS = {
                 "operation counts of the portable planner through a counting element type for every n (two inputs each); " + NT_PLAN,
     },
     "C06": {
-        "driver": "c06", "level": "model_checking", "mc": [MC_LAYER, MC_EXEC] + MC_EXECAVX,
+        "driver": "c06", "level": "model_checking", "mc": [MC_LAYER, MC_EXEC, MC_PCACHE] + MC_EXECAVX,
         "rule": "every (planner kind, f32/f64, n): both directions planned on one planner in either order, forward-then-inverse and inverse-then-forward "
                 "round trips against n*x, and inverse(x) against conj(forward(conj x)); " + NT_PLAN,
     },
@@ -89,7 +91,7 @@ PROPS = {
     "C10": {
         "gen": [{"module": "MC_Histories.tla", "cfg": "MC_Histories_f32.cfg", "timeout": 900},
                 {"module": "MC_Histories.tla", "cfg": "MC_Histories_f64.cfg", "timeout": 900}],
-        "driver": "c10", "level": "model_checking", "mc": [MC_LAYER, MC_PLAN],
+        "driver": "c10", "level": "model_checking", "mc": [MC_LAYER, MC_PLAN, MC_PCACHE],
         "rule": "request histories over five pools of related (length, direction) pairs: all sequences of length 1 and 2, a seeded sample of length 3, random "
                 "sequences of length 4..12; each replayed on two planner objects of every kind x f32/f64; every returned transform checked against the reference DFT "
                 "(log bound), round-tripped with earlier opposite-direction transforms, re-used after the planners are dropped; twin outputs bit-identical "
@@ -97,7 +99,7 @@ PROPS = {
     },
     "C11": {
         "gen": {"module": "Threads.tla", "cfg": "MC_Threads.cfg", "timeout": 300},
-        "driver": "c11", "level": "model_checking", "mc": [MC_LAYER, MC_THR],
+        "driver": "c11", "level": "model_checking", "mc": [MC_LAYER, MC_THR, MC_THRENV],
         "rule": "shared instances of every planner kind x f32/f64 over 14 lengths covering every wrapper algorithm: forced two-thread schedules through the "
                 "chunk-boundary hook (context-bounded, <= 2 preemptions) and 16 free-running threads x R rounds with mixed entry points and chunk counts; every "
                 "concurrent output hash must equal the sequential reference recorded in the same trace (decided by TLC); every case is non-trivial",
